@@ -17,6 +17,8 @@ import (
 	"google.golang.org/protobuf/runtime/protoiface"
 	"google.golang.org/protobuf/runtime/protoimpl"
 	"google.golang.org/protobuf/types/known/anypb"
+	"google.golang.org/protobuf/types/known/durationpb"
+	"google.golang.org/protobuf/types/known/timestamppb"
 )
 
 // read-only operation kinds
@@ -266,6 +268,56 @@ func lenOrNil(v reflect.Value) string {
 	}
 }
 
+var warmed = map[protoreflect.FullName]bool{}
+
+func warmDescriptor(md protoreflect.MessageDescriptor, depth int) {
+	if warmed[md.FullName()] || depth > 8 {
+		return
+	}
+	warmed[md.FullName()] = true
+	fds := md.Fields()
+	for i := 0; i < fds.Len(); i++ {
+		fd := fds.Get(i)
+		_ = fd.JSONName()
+		_ = fd.ContainingOneof()
+		_ = fd.Default()
+		if fd.Enum() != nil {
+			_ = fd.Enum().Values().Len()
+		}
+		if fd.IsMap() {
+			_ = fd.MapKey().Kind()
+			if fd.MapValue().Message() != nil {
+				warmDescriptor(fd.MapValue().Message(), depth+1)
+			}
+		} else if fd.Message() != nil {
+			warmDescriptor(fd.Message(), depth+1)
+		}
+	}
+	_ = md.Oneofs().Len()
+	if mt, err := protoregistry.GlobalTypes.FindMessageByName(md.FullName()); err == nil {
+		if mi, ok := mt.(*protoimpl.MessageInfo); ok {
+			// struct-based reflection of a zero value initialises the MessageInfo
+			mi.MessageOf(mi.Zero().Interface()).Range(func(protoreflect.FieldDescriptor, protoreflect.Value) bool { return true })
+		}
+	}
+}
+
+var wktWarm bool
+
+func warmUp(md protoreflect.MessageDescriptor, env *opEnv, private proto.Message) {
+	if !wktWarm {
+		wktWarm = true
+		for _, m := range []proto.Message{&anypb.Any{TypeUrl: "x"}, &timestamppb.Timestamp{Seconds: 1}, &durationpb.Duration{Seconds: 1}} {
+			proto.Size(m)
+			proto.Marshal(m)
+			protojson.Marshal(m)
+			prototext.Marshal(m)
+			proto.Equal(m, proto.Clone(m))
+		}
+	}
+	warmDescriptor(md, 0)
+}
+
 var quanta = []int{1, 1, 2, 3, 5, 8, 13, 30, 80, 200, 600, 2000}
 
 type readerTask struct {
@@ -357,15 +409,13 @@ func runReaders(c *simrun.Ctx) *simrun.Violation {
 		rt.results = make([]string, n)
 		tasks[i] = rt
 	}
-	// sequential reader on a private copy, same order draws (also warms up every lazy path)
-	expected := make([][]string, nTasks)
-	for i, rt := range tasks {
-		expected[i] = make([]string, len(rt.prog))
-		for j, op := range rt.prog {
-			expected[i][j] = doOp(private, op, env)
-			st.Add("op_"+opNames[op.Kind], 1)
-		}
-	}
+	// Narrow warm-up of protobuf-go's own lazily initialised, mutex-guarded
+	// state (descriptor tables, the struct-reflection MessageInfo, well-known
+	// types), so that no task can be parked at a yield point while it holds one
+	// of protobuf-go's initialisation locks. Nothing of the generated code's
+	// read paths is run here: their first use happens inside the concurrent
+	// phase, and the sequential reference is computed afterwards.
+	warmUp(md, env, private)
 	newRaceReports() // drain anything written before the concurrent phase
 	c.Tracef("type=%s tasks=%d value=%s", md.FullName(), nTasks, clip(canon, 500))
 
@@ -410,6 +460,15 @@ func runReaders(c *simrun.Ctx) *simrun.Violation {
 	c.Trace = append(c.Trace, "schedule: "+strings.Join(schedule, " "))
 	c.Result = sched.SeqHash
 	races := newRaceReports()
+	// sequential reader on a private copy with the same order draws
+	expected := make([][]string, nTasks)
+	for i, rt := range tasks {
+		expected[i] = make([]string, len(rt.prog))
+		for j, op := range rt.prog {
+			expected[i][j] = doOp(private, op, env)
+			st.Add("op_"+opNames[op.Kind], 1)
+		}
+	}
 	if strings.Contains(races, "DATA RACE") {
 		return &simrun.Violation{Class: "C11:data-race", Detail: map[string]interface{}{
 			"type": string(md.FullName()), "value": clip(canon, 3000), "race_report": clip(races, 6000), "programs": describePrograms(tasks)}}
